@@ -73,13 +73,23 @@ const SHAPED: &[&str] = &[
   "0", "-1", "3", "1e3", "0x10", "1.0", "NaN", "2026-09-29T00:00:00Z", "undefined", "[object Object]", "__proto__", "constructor",
 ];
 
-fn wild_string() -> BoxedStrategy<String> {
+pub fn wild_string() -> BoxedStrategy<String> {
   prop_oneof![
     10 => vec(any::<u16>(), 0..=6).prop_map(|v| v.into_iter().map(|s| PIECES[crate::gen::idx(s, PIECES.len())]).collect::<String>()),
     1 => (0..SHAPED.len()).prop_map(|i| SHAPED[i].to_string()),
+    // a shaped value with one character replaced by a letter or digit outside ASCII (same length in characters, not in
+    // bytes; still "alphanumeric" to a Unicode-aware test), by a character that changes length under case mapping, or by an emoji
+    1 => (0..SHAPED.len(), any::<u16>(), 0..TWISTS.len()).prop_map(|(i, pos, t)| {
+      let mut cs: Vec<String> = SHAPED[i].chars().map(|c| c.to_string()).collect();
+      let k = crate::gen::idx(pos, cs.len());
+      cs[k] = TWISTS[t].to_string();
+      cs.concat()
+    }),
   ]
   .boxed()
 }
+
+const TWISTS: &[&str] = &["é", "ß", "日", "٣", "İ", "ǅ", "😀", "\u{0301}", "Ａ"];
 
 fn strings(max: usize) -> BoxedStrategy<Vec<String>> {
   vec(prop_oneof![1 => Just(String::new()), 4 => wild_string()], 0..=max).boxed()
